@@ -80,6 +80,21 @@ def names : E → List Name
   | E.call _ a => names a
   | E.der e => names e
 
+/-- Number literals of an expression, left to right (the texts `exitPrimary` writes: `str(value)`). -/
+def lits : E → List Name
+  | E.atom (Atom.name _) => []
+  | E.atom (Atom.num s) => [s]
+  | E.bin _ l r => lits l ++ lits r
+  | E.pre _ e => lits e
+  | E.call _ a => lits a
+  | E.der e => lits e
+
+/-- Number literals of a token list, left to right. -/
+def tokLits : List Tok → List Name
+  | [] => []
+  | Tok.atom (Atom.num s) :: r => s :: tokLits r
+  | _ :: r => tokLits r
+
 /-- The Python tree the generator means to write for a flat expression. -/
 def toPy (B : List Name) (e : E) : E := rename (mangleRef B) e
 
